@@ -24,5 +24,6 @@ func moreGens() []struct {
 		{"StreamSplit.v", genStreamSplit},     // C04, C17
 		{"EdiShape.v", genEdiShape},           // C07
 		{"ChildrenOrder.v", genChildrenOrder}, // C15
+		{"FaultWrap.v", genFaultWrap},         // C16
 	}
 }
